@@ -20,6 +20,8 @@ import (
 	v1 "k8s.io/api/core/v1"
 	"k8s.io/apimachinery/pkg/types"
 
+	"istio.io/istio/pilot/pkg/model"
+	"istio.io/istio/pkg/config"
 	"istio.io/istio/pkg/verif"
 )
 
@@ -40,6 +42,12 @@ func ctProxyUpdatesFrame(pc *PodCache, pod *v1.Pod, isPodUpdate bool) {
 // Re-queueing an endpoint event (the callback handed to the cache) does not touch the index.
 //
 //verif:quiet-callback PodCache.queueEndpointEvent
+
+// waitsFor: the endpoint (slice) key is waiting for a pod with this IP to arrive.
+func waitsFor(pc *PodCache, ip string, key types.NamespacedName) bool {
+	_, ok := pc.needResync[ip][key]
+	return ok
+}
 
 func podAt(pc *PodCache, ip string, key types.NamespacedName) bool {
 	_, ok := pc.podsByIP[ip][key]
@@ -66,6 +74,11 @@ func pcInv(pc *PodCache) bool {
 			s, f := pc.podsByIP[ip]
 			return !f || (s != nil && len(s) > 0)
 		}) &&
+		// a pod is never recorded without an IP
+		verif.Forall(func(key types.NamespacedName) bool {
+			cur, f := pc.ipByPods[key]
+			return !f || cur != ""
+		}) &&
 		verif.Forall(func(a string) bool {
 			return verif.Forall(func(b string) bool {
 				return a == b || pc.podsByIP[a] == nil || !verif.Same(pc.podsByIP[a], pc.podsByIP[b])
@@ -84,6 +97,7 @@ func pcInv(pc *PodCache) bool {
 //verif:nosafety
 func ctAddPod(pc *PodCache, pod *v1.Pod, ip string, key types.NamespacedName, labelUpdated bool) {
 	verif.Requires("cache-well-formed", pc != nil && pcInv(pc))
+	verif.Requires("an-ip", ip != "")
 	known := podAt(pc, ip, key)
 	pc.addPod(pod, ip, key, labelUpdated)
 	verif.Ensures("pod-recorded-under-this-ip", pc.ipByPods[key] == ip && podAt(pc, ip, key))
@@ -96,6 +110,11 @@ func ctAddPod(pc *PodCache, pod *v1.Pod, ip string, key types.NamespacedName, la
 	// pod was already recorded under this IP)
 	_, waiting := pc.needResync[ip]
 	verif.Ensures("waiting-endpoints-released", !waiting || known)
+	verif.Ensures("endpoints-waiting-for-other-ips-keep-waiting", verif.Forall(func(i string) bool {
+		return verif.Forall(func(k types.NamespacedName) bool {
+			return i == ip || waitsFor(pc, i, k) == verif.Old(func() bool { return waitsFor(pc, i, k) })
+		})
+	}))
 }
 
 //verif:contract (*PodCache).deleteIP
@@ -107,6 +126,12 @@ func ctDeleteIP(pc *PodCache, ip string, podKey types.NamespacedName) {
 	removed := pc.deleteIP(ip, podKey)
 	_, f := pc.ipByPods[podKey]
 	verif.Ensures("removed-iff-it-was-filed-under-this-ip", removed == was)
+	// endpoints waiting for a pod (of any IP) keep waiting: a pod going away is not a pod arriving
+	verif.Ensures("waiting-endpoints-keep-waiting", verif.Forall(func(i string) bool {
+		return verif.Forall(func(k types.NamespacedName) bool {
+			return waitsFor(pc, i, k) == verif.Old(func() bool { return waitsFor(pc, i, k) })
+		})
+	}))
 	verif.Ensures("pod-forgotten-when-removed", !removed || (!f && !podAt(pc, ip, podKey)))
 	verif.Ensures("stale-delete-changes-nothing", removed || verif.Forall(func(k types.NamespacedName) bool {
 		cur, fk := pc.ipByPods[k]
@@ -125,11 +150,85 @@ func ctDeleteIP(pc *PodCache, ip string, podKey types.NamespacedName) {
 //verif:prop C15
 //verif:nosafety
 func ctQueueEndpointEventOnPodArrival(pc *PodCache, key types.NamespacedName, ip string) {
-	verif.Requires("cache-well-formed", pc != nil && pc.needResync != nil)
-	verif.Requires("waiting-sets-present", verif.Forall(func(i string) bool { s, f := pc.needResync[i]; return !f || s != nil }))
+	verif.Requires("cache-well-formed", pc != nil && waitingInv(pc))
 	pc.queueEndpointEventOnPodArrival(key, ip)
-	_, ok := pc.needResync[ip][key]
-	verif.Ensures("endpoint-waits-for-the-pod", ok)
+	verif.Ensures("endpoint-waits-for-the-pod", waitsFor(pc, ip, key))
+	verif.Ensures("other-endpoints-keep-waiting", verif.Forall(func(i string) bool {
+		return verif.Forall(func(k types.NamespacedName) bool {
+			return (i == ip && k == key) || waitsFor(pc, i, k) == verif.Old(func() bool { return waitsFor(pc, i, k) })
+		})
+	}))
+}
+
+// waitingInv: the waiting sets exist, are not empty and are not shared between IPs.
+func waitingInv(pc *PodCache) bool {
+	return pc.needResync != nil &&
+		verif.Forall(func(i string) bool { s, f := pc.needResync[i]; return !f || s != nil }) &&
+		verif.Forall(func(a string) bool {
+			return verif.Forall(func(b string) bool {
+				return a == b || pc.needResync[a] == nil || !verif.Same(pc.needResync[a], pc.needResync[b])
+			})
+		})
+}
+
+// An endpoint that goes away stops waiting - and only that endpoint.
+//
+//verif:contract (*PodCache).endpointDeleted
+//verif:prop C15
+//verif:nosafety
+func ctEndpointDeleted(pc *PodCache, key types.NamespacedName, ip string) {
+	verif.Requires("cache-well-formed", pc != nil && waitingInv(pc))
+	pc.endpointDeleted(key, ip)
+	verif.Ensures("endpoint-no-longer-waits", !waitsFor(pc, ip, key))
+	verif.Ensures("other-endpoints-keep-waiting", verif.Forall(func(i string) bool {
+		return verif.Forall(func(k types.NamespacedName) bool {
+			return (i == ip && k == key) || waitsFor(pc, i, k) == verif.Old(func() bool { return waitsFor(pc, i, k) })
+		})
+	}))
+	verif.Ensures("cache-well-formed", waitingInv(pc))
+}
+
+// The event handler of the pod informer, as far as the index goes. Whether a pod belongs in the index (it
+// runs and is ready) is a fixed function of the pod object.
+//
+//verif:pure shouldPodBeInEndpoints IsPodReady istio.io/istio/pkg/config.NamespacedName
+
+// Telling the workload handlers is outside the index (assumed not to write it).
+//
+//verif:trusted-contract (*PodCache).notifyWorkloadHandlers
+//verif:writes-nothing
+func ctNotifyWorkloadHandlersFrame(pc *PodCache, pod *v1.Pod, ev model.Event, ip string) {
+	pc.notifyWorkloadHandlers(pod, ev, ip)
+}
+
+//verif:trusted-contract (*PodCache).labelFilter
+//verif:writes-nothing
+func ctLabelFilterFrame(pc *PodCache, old, cur *v1.Pod) {
+	pc.labelFilter(old, cur)
+}
+
+// from the statement: the index "depend[s] only on the cluster's current objects": after the event for the
+// current state of a pod has been handled, the pod is in the index exactly if it belongs there (it has an
+// IP, runs and is ready, and was not deleted) - and then under its current IP.
+//
+//verif:contract (*PodCache).onEvent
+//verif:prop C15
+//verif:nosafety
+func ctOnEvent(pc *PodCache, old, pod *v1.Pod, ev model.Event) {
+	verif.Requires("cache-well-formed", pc != nil && pod != nil && pcInv(pc))
+	verif.Requires("a-pod-event", ev == model.EventAdd || ev == model.EventUpdate || ev == model.EventDelete)
+	key := config.NamespacedName(pod)
+	belongs := shouldPodBeInEndpoints(pod) && IsPodReady(pod)
+	_ = pc.onEvent(old, pod, ev)
+	cur, in := pc.ipByPods[key]
+	verif.Ensures("ready-pod-with-an-ip-is-indexed-under-it", !(ev != model.EventDelete && belongs && pod.Status.PodIP != "") || (in && cur == pod.Status.PodIP))
+	verif.Ensures("deleted-pod-is-forgotten", ev != model.EventDelete || !in)
+	verif.Ensures("pod-that-stopped-belonging-is-forgotten", !(ev == model.EventUpdate && !belongs) || !in)
+	// the representation invariant, stated once per kind of event (together: after every event)
+	verif.Ensures("cache-well-formed-after-add", ev != model.EventAdd || pcInv(pc))
+	verif.Ensures("cache-well-formed-after-update-of-a-ready-pod", !(ev == model.EventUpdate && belongs) || pcInv(pc))
+	verif.Ensures("cache-well-formed-after-update-of-an-unready-pod", !(ev == model.EventUpdate && !belongs) || pcInv(pc))
+	verif.Ensures("cache-well-formed-after-delete", ev != model.EventDelete || pcInv(pc))
 }
 
 // Lemmas over the contracts above: what the index holds after a few events does not depend on their order.
@@ -141,6 +240,7 @@ func ctQueueEndpointEventOnPodArrival(pc *PodCache, key types.NamespacedName, ip
 func lemmaPodEventsOfDifferentPodsCommute(pc *PodCache, p1, p2 *v1.Pod, ip1, ip2 string, k1, k2 types.NamespacedName) {
 	verif.Requires("cache-well-formed", pc != nil && pcInv(pc))
 	verif.Requires("different-pods", k1 != k2)
+	verif.Requires("ips", ip1 != "" && ip2 != "")
 	before := verif.Snapshot()
 	pc.addPod(p1, ip1, k1, false)
 	pc.addPod(p2, ip2, k2, false)
@@ -160,6 +260,7 @@ func lemmaPodEventsOfDifferentPodsCommute(pc *PodCache, p1, p2 *v1.Pod, ip1, ip2
 func lemmaIPReuse(pc *PodCache, p1, p2 *v1.Pod, ip string, k1, k2 types.NamespacedName) {
 	verif.Requires("cache-well-formed", pc != nil && pcInv(pc))
 	verif.Requires("different-pods", k1 != k2)
+	verif.Requires("an-ip", ip != "")
 	pc.addPod(p1, ip, k1, false)
 	pc.deleteIP(ip, k1)
 	pc.addPod(p2, ip, k2, false)
@@ -173,7 +274,7 @@ func lemmaIPReuse(pc *PodCache, p1, p2 *v1.Pod, ip string, k1, k2 types.Namespac
 //verif:prop C15
 func lemmaStaleDeleteAfterIPChange(pc *PodCache, p *v1.Pod, ipA, ipB string, k types.NamespacedName) {
 	verif.Requires("cache-well-formed", pc != nil && pcInv(pc))
-	verif.Requires("address-changed", ipA != ipB)
+	verif.Requires("address-changed", ipA != ipB && ipA != "" && ipB != "")
 	pc.addPod(p, ipA, k, false)
 	pc.addPod(p, ipB, k, false)
 	removed := pc.deleteIP(ipA, k)
